@@ -118,6 +118,26 @@ def run_shard(shard, tier, seed, wd, res):
     for _ in range(4):
         p1, q1, p2, q2 = rng.choice(pool1 + [id1]), rng.choice(pool2), rng.choice(pool1), rng.choice(pool2 + [id2])
         s.op("pairing_product", p1[0], q1[0], p2[0], q2[0])
+    # operands related by the order-3 automorphism (x, y) -> (beta x, y): distinct points with the SAME y-coordinate
+    # (lam = z^2 - 1 is an eigenvalue of it on both groups), on either side of the product
+    lam = 0xac45a4010001a40200000000ffffffff
+    for _ in range(2):
+        p, q_ = rng.choice(pool1), rng.choice(pool2)
+        for lm in (lam, (R - 1 - lam) % R):
+            p_l = s.op("g1.to_affine", s.op("g1.amul", p[0], V.RR(lm)))
+            q_l = s.op("g2.to_affine", s.op("g2.amul", q_[0], V.RR(lm)))
+            s.op("pairing_product", p[0], q_[0], p_l, q_[0])
+            s.op("pairing_product", p[0], q_[0], p[0], q_l)
+            s.op("pairing_product", p[0], q_[0], p_l, q_l)
+            s.op("pairing_multi", V.lst([p[0], p_l, p[0]]), V.lst([q_[0], q_[0], q_l]))
+    # caller-defined argument types whose conversion re-enters the library (mode 1) or panics (mode 2), then plain again
+    for _ in range(2):
+        p1, q1, p2, q2 = rng.choice(pool1), rng.choice(pool2), rng.choice(pool1), rng.choice(pool2)
+        s.op("pairing_product_re", p1[0], q1[0], p2[0], q2[0], V.n(1))
+        s.op("pairing_product_re", p1[0], q1[0], p2[0], q2[0], V.n(2))
+        s.op("pairing_product", p1[0], q1[0], p2[0], q2[0])
+        s.op("pairing_product_re", p2[0], q2[0], p1[0], q1[0], V.n(0))
+        s.op("pairing_re", p1[0], q1[0], V.n(1))
     H.monitor_script(__import__("props.c11", fromlist=["x"]), s.text(), BUILDS, wd, res, shard)
 
 
@@ -149,6 +169,18 @@ def _prep_origin(ctx, r):
 
 
 def judge(ctx, rec, res):
+    if rec.op.endswith("_re"):
+        if rec.args[-1][1] == 2:
+            return None if rec.status == "panic" else "the conversion's own panic to reach the caller"
+        saved = rec.op
+        rec.op = rec.op[:-3]
+        try:
+            if rec.op == "pairing":
+                from props import c03
+                return c03.judge(ctx, rec, res)
+            return judge(ctx, rec, res)
+        finally:
+            rec.op = saved
     op = rec.op
     if op in ("prepare1", "prepare2", "prepare1_from", "prepare2_from"):
         res.evals += 1
